@@ -24,5 +24,17 @@ constexpr auto copy_two(InputIt first, OutputIt result) -> OutputIt
     return result;
 }
 
+// IT4i: tests the index, uses it, then steps down: index 0 is never looked at
+template <typename Char>
+constexpr auto last_not_space(Char const* s, unsigned long n) -> unsigned long
+{
+    for (auto i = n - 1; i != 0; --i) {
+        if (s[i] != Char(' ')) {
+            return i;
+        }
+    }
+    return static_cast<unsigned long>(-1);
+}
+
 } // namespace fixture
 #endif
